@@ -25,7 +25,7 @@ LEVEL = 'exploration'
 SHARDS = {'quick': 16, 'thorough': 16}
 FLOOR = {'quick': 1500, 'thorough': 20000}
 REQUIRED_MONITORS = {'model-compared': 4000, 'pipe-fell-through': 1500, 'propagated': 200, 'dead-expressions-watched': 2000,
-                     'python-eval-compared': 1500}
+                     'python-eval-compared': 1500, 'imports-compared': 100}
 RULE = ('a case = (program, expression trees at statement and ${} sites, binding table); pipes of length 1..4 whose leading '
         'alternatives raise each of AttributeError, NameError, KeyError, IndexError, LookupError, TypeError, ValueError, '
         'UnicodeDecodeError, UnboundLocalError (must fall through) or ZeroDivisionError, RuntimeError, OSError, AssertionError, '
@@ -34,7 +34,8 @@ RULE = ('a case = (program, expression trees at statement and ${} sites, binding
         'KeyError or RuntimeError; names shadowing builtins. Non-trivial iff >=1 recording callable reached and (a pipe fell '
         'through, or a prefix was applied, or something was proved not evaluated); distinct by (expression shapes, site '
         'kinds, winning alternative index, exception class). Second layer: 2 400 (quick) generated Python expressions '
-        'compared with eval. Not generated: "|" inside Python string literals, string: inside ${...}, walrus, default '
+        'compared with eval. Third layer: import: of dotted names through freshly written packages whose sub-modules nobody '
+        'has imported (value / exists: / last pipe alternative / class attribute / missing module), rendered twice. Not generated: "|" inside Python string literals, string: inside ${...}, walrus, default '
         'outside content/replace/attributes/case.')
 ASSUMPTIONS = ['reference model vlib/tmodel.py; Python eval for the Python sub-grammar']
 
@@ -324,13 +325,78 @@ def layer_python(ctx, n):
                 e, sorted(shadow), got_s, want_s), {'kind': 'py', 'expr': e, 'src': src})
 
 
+def layer_import(ctx, n):
+    """import: on dotted names through packages nobody has imported yet (fresh packages written to a scratch
+    directory): the value is known by construction, whatever the import history of the process; a missing
+    module raises ImportError (which a pipe must not swallow)."""
+    import os, shutil, sys, tempfile
+    from chameleon import PageTemplate
+    rng = ctx.rng
+    root = tempfile.mkdtemp(prefix='verif_c04_')
+    sys.path.insert(0, root)
+    try:
+        for i in range(n):
+            pkg = 'vq%d_%d_%d' % (ctx.shard, os.getpid(), i)
+            depth = rng.randint(1, 3)
+            parts = [pkg] + ['s%d' % k for k in range(depth)]
+            d = root
+            for part in parts[:-1]:
+                d = os.path.join(d, part)
+                os.mkdir(d)
+                open(os.path.join(d, '__init__.py'), 'w').close()
+            with open(os.path.join(d, parts[-1] + '.py'), 'w') as f:
+                f.write('NAME = %r\nclass K:\n    attr = %r\n' % ('val%d' % i, 'kattr%d' % i))
+            dotted = '.'.join(parts)
+            shape = rng.choice(['value', 'exists', 'pipe', 'class-attr', 'missing-module', 'missing-in-pipe', 'python-use'])
+            if shape == 'value':
+                src, want = '<p>${import: %s.NAME}</p>' % dotted, '<p>val%d</p>' % i
+            elif shape == 'exists':
+                src, want = '<p tal:condition="exists: import: %s.NAME">Y</p>' % dotted, '<p>Y</p>'
+            elif shape == 'pipe':
+                # import: takes the rest of the argument (like string:), so it can only be the last alternative
+                src, want = '<p tal:content="nothing.x | import: %s.NAME">x</p>' % dotted, '<p>val%d</p>' % i
+            elif shape == 'class-attr':
+                src, want = '<p tal:content="import: %s.K.attr">x</p>' % dotted, '<p>kattr%d</p>' % i
+            elif shape == 'missing-module':
+                src, want = '<p tal:content="import: %s.nosuch.NAME">x</p>' % '.'.join(parts[:-1]), 'RAISED ImportError'
+            elif shape == 'missing-in-pipe':
+                src, want = '<p tal:content="nothing.x | import: %s.nosuch.NAME">x</p>' % '.'.join(parts[:-1]), 'RAISED ImportError'
+            else:
+                src, want = '<p tal:define="m import: %s" tal:content="m.NAME + m.K.attr">x</p>' % dotted, '<p>val%dkattr%d</p>' % (i, i)
+            outs = []
+            for again in range(2):      # first with the sub-modules not yet imported, then with them loaded
+                try:
+                    outs.append(PageTemplate(src)())
+                except ImportError:
+                    outs.append('RAISED ImportError')
+                except Exception as e:
+                    outs.append('RAISED %s: %s' % (type(e).__name__, str(e).split('\n')[0][:100]))
+            ctx.mon('imports-compared')
+            ctx.case(key=('import', shape, depth), nontrivial=True, sample={'source': src, 'rendered': outs} if i < 2 else None)
+            if outs != [want, want]:
+                ctx.violation('import-expression-differs:' + shape,
+                              'template %r with fresh package %s (sub-modules not imported before): first/second rendering %r, expected %r'
+                              % (src, dotted, outs, want), {'kind': 'import', 'shape': shape, 'depth': depth})
+    finally:
+        sys.path.remove(root)
+        shutil.rmtree(root, ignore_errors=True)
+
+
 def run(ctx):
     monitors.install(ctx, tokalg=False)
+    layer_import(ctx, 20 if ctx.quick else 200)
     layer_model(ctx, 120 if ctx.quick else 2500)
     layer_python(ctx, 150 if ctx.quick else 3000)
 
 
 def replay(data):
+    if data.get('kind') == 'import':
+        from vlib import shard, state
+        ctx = shard.Ctx(PROP, 'quick', 0, 0, 1)
+        state.CTX = ctx
+        monitors.install(ctx, tokalg=False)
+        layer_import(ctx, 40)
+        return bool(ctx.violations), '\n'.join(v['what'] for v in ctx.violations) or 'all import: shapes behave'
     if data.get('kind') == 'py':
         from chameleon import PageTemplate
         env = exprs.make_env()
